@@ -27,7 +27,7 @@ PROP = "C02"
 LEAN_PROP = "PyaModel.Props.C02"
 NAMESPACE = "Pya.C02"
 LEAN_TARGETS = ["PyaModel.Core.Sexp", "PyaModel.Spec.Mem", "PyaModel.Generated.ClassTable", "PyaModel.Core.Narrow",
-                "PyaModel.Spec.NarrowSpec", "PyaModel.Generated.NarrowTables"]
+                "PyaModel.Spec.NarrowSpec", "PyaModel.Generated.NarrowTables", "PyaModel.Generated.ConstraintSites"]
 ANCHORS = [
     ("pyanalyze/stacked_scopes.py", "Constraint.apply_to_value"),
     ("pyanalyze/stacked_scopes.py", "Constraint.invert"),
@@ -78,6 +78,9 @@ RULE = (
     "operands that yield no constraint (`flag()`, `a == b`, `a is b`, `a in b`, `isinstance(x, cls_var)`) in if / elif / while / "
     "ternary / assert / walrus position, the generated module really executed on every object of both declared types x both "
     "values of every opaque bit (each variable's object must belong to the type revealed in the branch that ran); "
+    "comparison chains with a link that narrows nothing (`None is x is a`, `x == 1 != 1`) among the atoms, comprehension-condition and "
+    "assert-message positions; match cases carry guards of the same grammar (atoms on the subject, on a capture `cap`, on another "
+    "variable, opaque calls, trees), executed under both values of every opaque bit; "
     "match statements (1-4 cases of singleton / value / class / or / wildcard patterns, bodies falling through or returning) over "
     "subjects mixing ==-equal literals of different types (1/True, 0/False, None, enum members, int/bool/float classes), the "
     "generated module is really executed by CPython on every object of the declared type and the object must belong to the type "
@@ -92,6 +95,8 @@ ASSUMPTIONS = [
     "Enum class objects against generic ABC targets (Iterable[T], Collection[T], ...) are outside the oracle: the object universe has no element structure for them (like str/bytes objects)",
     "TypeIs/TypeGuard functions are trusted to return `o in T`; `is` is compared only with singletons (None, bools, enum members, classes)",
     "id()-based simplifications of AndConstraint.make / OrConstraint.make are not modelled (the harness never reuses a constraint object); union member order and duplicate members are not compared (C10 / C14)",
+    "the places where constraints are combined / inverted are scanned from the live source (Generated/ConstraintSites.lean) and must be registered with the stream that reaches them with a NULL operand (Spec/NarrowSites.lean); registered as outside the fragment: check_call (constraints of a call through a union of callables, no_return_unless) and the sub-pattern conjunctions of class / mapping / sequence patterns",
+    "revealed types are compared with the model for the fixed flow shapes and for match guards without an atom on the subject; deeper trees / subject guards are evaluated by the checker in the scopes earlier operands left and are judged by execution only",
     "match sequence/mapping patterns, comparison predicates on the variable itself (x < 3: metadata only) and constraints on attributes/subscripts are outside the model",
 ]
 TRUSTED = [
@@ -118,6 +123,7 @@ def live_cls(names):
 
 VN = VarnameWithOrigin("x")
 VNY = VarnameWithOrigin("y")
+VNC = VarnameWithOrigin("cap")
 OPS = {"eq": (ast.Eq, "=="), "ne": (ast.NotEq, "!="), "lt": (ast.Lt, "<"), "le": (ast.LtE, "<="), "gt": (ast.Gt, ">"),
        "ge": (ast.GtE, ">=")}
 ENUMS = [V.CID[U.Color], V.CID[U.IE]]
@@ -153,7 +159,56 @@ end Pya.C02
        ", ".join("true" if m else "false" for m in mut), "true" if lenrev_mirrored() else "false",
        "true" if and_value_leaks() else "false")
     ch2 = lean.write_if_changed(os.path.join(lean.LEAN, "PyaModel", "Generated", "NarrowTables.lean"), text)
+    sites = constraint_sites()
+    stext = """/-! GENERATED by harness/props/c02.py (translate: AST scan of the live /repo tree) on every run. Do not edit.
+Every place in name_check_visitor.py / stacked_scopes.py / patma.py where abstract constraints are combined, inverted,
+extracted from a value or handed to a scope: (file, enclosing function, callee, number of calls). -/
+namespace Pya.C02
+
+def liveSites : List (String × String × String × Nat) := [
+%s]
+
+end Pya.C02
+""" % ",\n".join('  ("%s", "%s", "%s", %d)' % k for k in sites)
+    ch3 = lean.write_if_changed(os.path.join(lean.LEAN, "PyaModel", "Generated", "ConstraintSites.lean"), stext)
+    ctx.extra["constraint_sites"] = {"count": len(sites), "changed_on_disk": ch3}
     ctx.extra["tables_regenerated"] = {"class_table_changed": changed, "narrow_tables_changed": ch2, "classes": len(V.CLASSES)}
+
+
+SITE_FILES = ["pyanalyze/name_check_visitor.py", "pyanalyze/stacked_scopes.py", "pyanalyze/patma.py"]
+
+
+def constraint_sites():
+    """AST scan of the live source: calls of AndConstraint.make / OrConstraint.make / EquivalentConstraint.make / .invert() /
+    extract_constraints / constraint_from_condition / add_constraint, by enclosing function."""
+    import collections
+    out = collections.Counter()
+
+    def callee(node):
+        f = node.func
+        if isinstance(f, ast.Attribute):
+            if f.attr == "make" and isinstance(f.value, ast.Name) and f.value.id in ("AndConstraint", "OrConstraint", "EquivalentConstraint"):
+                return f.value.id + ".make"
+            if f.attr in ("invert", "constraint_from_condition", "add_constraint"):
+                return f.attr
+        if isinstance(f, ast.Name) and f.id == "extract_constraints":
+            return f.id
+        return None
+
+    def walk(node, qual, file):
+        for ch in ast.iter_child_nodes(node):
+            q = qual
+            if isinstance(ch, (ast.FunctionDef, ast.AsyncFunctionDef, ast.ClassDef)):
+                q = (qual + "." if qual else "") + ch.name
+            if isinstance(ch, ast.Call):
+                c = callee(ch)
+                if c:
+                    out[(file.split("/")[-1], qual, c)] += 1
+            walk(ch, q, file)
+
+    for file in SITE_FILES:
+        walk(ast.parse(open(os.path.join(pya.REPO, file)).read()), "", file)
+    return [k + (v,) for k, v in sorted(out.items())]
 
 
 _LENREV = []
@@ -246,8 +301,12 @@ def cond_sexp(c):
         return "(%s %s)" % (k, V.ty_sexp(c[1]))
     if k in ("mclass", "ainst"):
         return "(%s %d)" % (k, c[1])
+    if k == "chain":
+        return cond_sexp(chain_expand(c))
     if k == "other":
         return "(other %s)" % cond_sexp(c[1])
+    if k == "cap":
+        return "(cap %s)" % cond_sexp(c[1])
     if k == "opq":
         return "(opq %d)" % c[1]
     if k == "not":
@@ -259,7 +318,9 @@ def cond_sexp(c):
 
 def leaves(c):
     """the atoms on the narrowed variable"""
-    if c[0] in ("other", "opq"):
+    if c[0] == "chain":
+        return leaves(chain_expand(c))
+    if c[0] in ("other", "opq", "cap"):
         return []
     if c[0] == "swap":
         return [c[1]]
@@ -312,6 +373,12 @@ def build_constraint(c, checker):
         return Constraint(VN, ConstraintType.is_instance, True, V.CLASSES[c[1]])
     if k == "ais":
         return Constraint(VN, ConstraintType.is_value, True, V.obj_to_py(c[1]))
+    if k == "chain":
+        # visit_Compare: AndConstraint.make of the links' constraints in source order (chain_expand lists them reversed)
+        return AndConstraint.make([build_constraint(x, checker) for x in reversed(chain_expand(c)[1])])
+    if k == "cap":
+        import dataclasses
+        return dataclasses.replace(build_constraint(c[1], checker), varname=VNC, inverted=None)   # the same atom on a capture
     if k == "other":
         import dataclasses
         return dataclasses.replace(build_constraint(c[1], checker), varname=VNY, inverted=None)  # the same atom on variable y
@@ -405,8 +472,12 @@ def py_holds(c, o, env=None):
     env = (object of the other variable, opaque bits) for combinations with atoms on `y` / opaque operands."""
     k = c[0]
     try:
+        if k == "chain":
+            return py_holds(chain_expand(c), o, env)
         if k == "other":
             return py_holds(c[1], env[0])
+        if k == "cap":
+            return py_holds(c[1], o)
         if k == "opq":
             return bool(env[1][c[1]])
         if k in ("isinst", "mclass", "ainst"):
@@ -487,8 +558,10 @@ def tested_ty(c):
         return ("union", [])
     if k == "swap":
         return tested_ty(c[1])
-    if k in ("other", "opq"):
+    if k in ("other", "opq", "cap"):
         return ("union", [])
+    if k == "chain":
+        return tested_ty(chain_expand(c))
     if k == "not":
         return tested_ty(c[1])
     return ("union", [tested_ty(x) for x in c[1]])
@@ -642,10 +715,55 @@ Y_POOL = [("union", [("typed", G.INT), ("known", ("none",))]), ("union", [("type
 Y_OBJS = [("none",), ("int", 1), ("int", 0), ("str", "a"), ("bool", 1), ("inst", V.CID[U.Color], 0), ("inst", V.CID[U.A], 0)]
 
 
+# comparison chains (visit_Compare): a narrowing link next to a link without constraint. ("chain", template, i, literal)
+#   ch1: `LIT is x is a_i`   ch3: `a_i is x is LIT`   (the link `x is a_i` compares two non-literals: no constraint; a_i is x or a
+#   sentinel, an opaque bit)    ch2t: `x == LIT == LIT`   ch2f: `x == LIT != LIT`   (literal-literal link: constant truth)
+CONST_BITS = {2: True, 3: False}
+
+
+def chain_expand(c):
+    """the conjunction the chain means, operands listed in *reverse* source order (the model's `and` reverses them)"""
+    t, i, lit = c[1], c[2], c[3]
+    if t == "ch1":
+        return ("and", [("opq", i, "isx"), ("is", lit)])
+    if t == "ch3":
+        return ("and", [("is", lit), ("opq", i, "isx")])
+    if t == "ch2t":
+        return ("and", [("opq", 2, "litT"), ("eq", lit)])
+    return ("and", [("opq", 3, "litF"), ("eq", lit)])
+
+
+def chain_text(c):
+    t, i, lit = c[1], c[2], c[3]
+    l = lit_src(lit)
+    if l is None:
+        return None
+    return {"ch1": "%s is x is a%d" % (l, i), "ch3": "a%d is x is %s" % (i, l), "ch2t": "x == %s == %s" % (l, l),
+            "ch2f": "x == %s != %s" % (l, l)}[t]
+
+
+def opaque_kinds(c, out=None):
+    out = {} if out is None else out
+    if c[0] == "chain":
+        return opaque_kinds(chain_expand(c), out)
+    if c[0] == "opq":
+        if len(c) > 2:
+            out[c[1]] = c[2]
+    elif c[0] in ("not", "other", "cap"):
+        if c[0] == "not":
+            opaque_kinds(c[1], out)
+    elif c[0] in ("and", "or"):
+        for x in c[1]:
+            opaque_kinds(x, out)
+    return out
+
+
 def opaque_ids(c):
+    if c[0] == "chain":
+        return opaque_ids(chain_expand(c))
     if c[0] == "opq":
         return {c[1]}
-    if c[0] in ("not", "other"):
+    if c[0] in ("not", "other", "cap"):
         return opaque_ids(c[1]) if c[0] == "not" else set()
     if c[0] in ("and", "or"):
         return set().union(*[opaque_ids(x) for x in c[1]])
@@ -653,6 +771,8 @@ def opaque_ids(c):
 
 
 def has_other(c):
+    if c[0] == "chain":
+        return False
     if c[0] == "other":
         return True
     if c[0] == "not":
@@ -670,9 +790,12 @@ def envs_for(c):
     n = (max(ids) + 1) if ids else 0
     ys = [V.obj_to_py(o) for o in Y_OBJS] if has_other(c) else [None]
     out = []
-    for bits in itertools.product([False, True], repeat=len(ids)):
-        full = [False] * n
-        for i, b in zip(ids, bits):
+    free = [i for i in ids if i not in CONST_BITS]
+    for bits in itertools.product([False, True], repeat=len(free)):
+        full = [False] * max(n, 4)
+        for i, b in CONST_BITS.items():
+            full[i] = b
+        for i, b in zip(free, bits):
             full[i] = b
         for y in ys:
             out.append((y, full))
@@ -842,7 +965,9 @@ def gen_triples(ctx):
 def any_swap(c):
     if c[0] == "swap":
         return True
-    if c[0] == "other":
+    if c[0] == "chain":
+        return any_swap(chain_expand(c))
+    if c[0] in ("other", "cap"):
         return any_swap(c[1])
     if c[0] == "opq":
         return False
@@ -1178,13 +1303,19 @@ def cond_text(c):
         if s is None or c[1][1][0] == "fset":
             return None
         return "%s %s x" % (s, {"is": "is", "isnot": "is not", "eq": "==", "ne": "!="}[c[1][0]])
+    if k == "chain":
+        return chain_text(c)
     if k == "other":
         s = cond_text(c[1])
         return None if s is None else re.sub(r"\bx\b", "y", s)
+    if k == "cap":
+        s = cond_text(c[1])
+        return None if s is None else re.sub(r"\bx\b", "cap", s)
     if k == "opq":
         i = c[1]
         return {"call": "flag%d()" % i, "eqab": "a%d == b%d" % (i, i), "isab": "a%d is b%d" % (i, i), "inab": "a%d in b%d" % (i, i),
-                "isvar": "isinstance(x, k%d)" % i}[c[2]] if len(c) > 2 else None
+                "isvar": "isinstance(x, k%d)" % i, "isx": "x is a%d" % i, "litT": "None is None", "litF": "None is not None"}[c[2]] \
+            if len(c) > 2 else None
     if k == "not":
         s = cond_text(c[1])
         return None if s is None else "not (%s)" % s
@@ -1371,7 +1502,7 @@ FLOW_X = [("union", [("typed", G.INT), ("known", ("none",))]), ("union", [("type
           ("union", [("seq", G.TUPLE, [("typed", G.INT)]), ("known", ("none",))]), ("union", [("typed", G.FLOAT), ("typed", G.STR)])]
 X_KINDS = ["isinst", "isinst", "is", "isnot", "eq", "ne", "in", "notin", "truthy"]
 OPQ_KINDS = ["call", "call", "eqab", "isab", "inab", "isvar"]
-POSITIONS = ["if", "if", "elif", "while", "ternary", "assert", "walrus"]
+POSITIONS = ["if", "if", "elif", "while", "ternary", "assert", "walrus", "comp", "assertmsg"]
 
 
 class _Nope:
@@ -1381,9 +1512,11 @@ class _Nope:
 def swap_vars(c):
     """the same condition seen from the other variable"""
     k = c[0]
+    if k == "chain":
+        return swap_vars(chain_expand(c))
     if k == "other":
         return c[1]
-    if k == "opq":
+    if k in ("opq", "cap"):
         return c
     if k == "not":
         return ("not", swap_vars(c[1]))
@@ -1400,9 +1533,18 @@ def gen_flow_tree(rng, Vx, Vy, depth, opq):
             return gen_leaf(rng, Vx, X_KINDS)
         if r < 0.72:
             return ("other", gen_leaf(rng, Vy, X_KINDS))
-        i = rng.randrange(2)
-        opq.setdefault(i, rng.choice(OPQ_KINDS))
-        return ("opq", i, opq[i])
+        if r < 0.82:
+            i = rng.randrange(2)
+            opq.setdefault(i, rng.choice(OPQ_KINDS))
+            return ("opq", i, opq[i])
+        # a comparison chain: a narrowing link next to a link that narrows nothing (visit_Compare)
+        t = rng.choice(["ch1", "ch3", "ch2t", "ch2f"])
+        if t in ("ch1", "ch3"):
+            i = rng.randrange(2)
+            if opq.setdefault(i, "isx") != "isx":
+                return gen_leaf(rng, Vx, X_KINDS)
+            return ("chain", t, i, rng.choice([("none",), ("bool", 1), ("inst", V.CID[U.Color], 0)]))
+        return ("chain", t, 0, rng.choice([("int", 1), ("str", "a"), ("none",)]))
     def tree(d):
         if d == 0 or rng.random() < 0.25:
             a = atom()
@@ -1432,9 +1574,14 @@ def std_flow_cases():
         (SI, ("or", [("and", [("isinst", [G.INT]), ("opq", 0, "call")]), ("isinst", [G.STR])])),
         (SI, ("or", [("isinst", [G.INT]), ("or", [("opq", 0, "call"), ("opq", 1, "eqab")])])),
         (OI, ("and", [("or", [("is", ("none",)), ("opq", 0, "call")]), ("or", [("truthy",), ("opq", 1, "call")])])),
+        # comparison chains with a link that narrows nothing, plain and negated
+        (OI, ("chain", "ch1", 0, ("none",))), (OI, ("not", ("chain", "ch1", 0, ("none",)))),
+        (OI, ("chain", "ch3", 0, ("none",))), (OI, ("not", ("chain", "ch3", 0, ("none",)))),
+        (L1A, ("chain", "ch2t", 0, ("int", 1))), (L1A, ("not", ("chain", "ch2t", 0, ("int", 1)))),
+        (L1A, ("not", ("chain", "ch2f", 0, ("int", 1)))), (OI, ("or", [("chain", "ch1", 0, ("none",)), ("opq", 1, "call")])),
     ]
     for Vx, c in shapes:
-        for pos in ("if", "elif", "while", "ternary", "assert", "walrus"):
+        for pos in ("if", "elif", "while", "ternary", "assert", "walrus", "comp", "assertmsg"):
             out.append((Vx, OI, c, pos))
     return out
 
@@ -1469,25 +1616,17 @@ def flow_stream(ctx, checker, with_model, cases=None):
     S1, S2 = object(), object()
     for b0 in range(0, len(ok), B):
         part = ok[b0:b0 + B]
-        src = [PRELUDE.rstrip("\n"), "from typing_extensions import reveal_type", "from types import NoneType", "BITS = [False, False]",
+        src = [PRELUDE.rstrip("\n"), "from typing_extensions import reveal_type", "from types import NoneType", "BITS = [False, False, True, False]",
                "def flag0() -> bool:\n    return BITS[0]", "def flag1() -> bool:\n    return BITS[1]",
                "def never() -> bool:\n    return False"]
         metas = []
         for j, (Vx, Vy, c, pos, exact) in enumerate(part):
-            kinds = {}
-            def collect(t):
-                if t[0] == "opq":
-                    kinds[t[1]] = t[2]
-                elif t[0] in ("not", "other"):
-                    collect(t[1])
-                elif t[0] in ("and", "or"):
-                    for x in t[1]:
-                        collect(x)
-            collect(c)
+            kinds = opaque_kinds(c)
             params = ["x: %s" % ty_src(Vx), "y: %s" % ty_src(Vy)]
             for i, kd in sorted(kinds.items()):
                 params += {"call": [], "eqab": ["a%d: int" % i, "b%d: int" % i], "isab": ["a%d: object" % i, "b%d: object" % i],
-                           "inab": ["a%d: int" % i, "b%d: list" % i], "isvar": ["k%d: type" % i]}[kd]
+                           "inab": ["a%d: int" % i, "b%d: list" % i], "isvar": ["k%d: type" % i], "isx": ["a%d: object" % i],
+                           "litT": [], "litF": []}[kd]
             text = cond_text(c)
             rv = "reveal_type(x); reveal_type(y)"
             body = ["def g%d(%s):" % (j, ", ".join(params)), "    " + rv]
@@ -1500,6 +1639,10 @@ def flow_stream(ctx, checker, with_model, cases=None):
                 body += ["    while %s:" % text, "        " + rv, "        return 1", "    " + rv, "    return 0"]
             elif pos == "ternary":
                 body += ["    return (reveal_type(x), reveal_type(y), 1) if %s else (reveal_type(x), reveal_type(y), 0)" % text]
+            elif pos == "comp":
+                body += ["    r = [(reveal_type(x), reveal_type(y)) for _ in (0,) if %s]" % text, "    return 1 if r else 0"]
+            elif pos == "assertmsg":
+                body += ["    assert %s, (reveal_type(x), reveal_type(y))" % text, "    return 1"]
             else:
                 body += ["    assert %s" % text, "    " + rv, "    return 1"]
             src += body
@@ -1527,7 +1670,7 @@ def flow_stream(ctx, checker, with_model, cases=None):
         for j, (Vx, Vy, c, pos, exact) in enumerate(part):
             diagnosed, vals = revealed.get(j, (True, None))
             ctx.count(1, flow=1, **{"flow_" + pos: 1})
-            want = 4 if pos == "assert" else 6
+            want = 4 if pos in ("assert", "comp", "assertmsg") else 6
             if diagnosed or not vals or len(vals) != want or any(v is None for v in vals):
                 ctx.tag("flow_diagnosed_or_not_revealed")
                 continue
@@ -1554,7 +1697,9 @@ def flow_stream(ctx, checker, with_model, cases=None):
             conforms = True
             # revealed: [x0, y0, x_body, y_body, (x_else, y_else)]; after a `while` the subject is deliberately not narrowed
             pairs = [(2, 0, "x if-branch"), (3, 2, "y if-branch")]
-            if pos not in ("assert", "while", "walrus"):
+            if pos == "assertmsg":
+                pairs = [(2, 1, "x else-branch"), (3, 3, "y else-branch")]   # the message is evaluated when the test is false
+            elif pos not in ("assert", "while", "walrus", "comp"):
                 # (after a `while` and in the else branch of `if (t := cond)` the checker deliberately narrows less;
                 #  those branches are judged by the execution below only)
                 pairs += [(4, 1, "x else-branch"), (5, 3, "y else-branch")]
@@ -1583,7 +1728,7 @@ def flow_stream(ctx, checker, with_model, cases=None):
             xlits = {V.obj_sexp(V.canon_obj(l)) for l in cond_literals(c)}
             xs.sort(key=lambda q: (V.obj_sexp(V.canon_obj(q[0])) not in xlits, q[0][0] in ("tuple", "list", "set", "fset", "dict")))
             ys = [(o, V.obj_to_py(o)) for o in Y_OBJS if G.member(V.obj_to_py(o), dec[1])] or [(("none",), None)]
-            ids = sorted(kinds)
+            ids = sorted(i for i in kinds if i not in CONST_BITS)
             found = False
             for (ox, px), (oy, pyy) in itertools.product(xs[:ctx.n(10, 16)], ys[:3]):
                 if found:
@@ -1593,7 +1738,7 @@ def flow_stream(ctx, checker, with_model, cases=None):
                 if not all(_eq_safe(pyy, V.obj_to_py(l)) for l in cond_literals(swap_vars(c))):
                     continue
                 for bits in itertools.product([False, True], repeat=len(ids)):
-                    full = [False, False]
+                    full = [False, False, True, False]
                     kw = {}
                     for i, bv in zip(ids, bits):
                         full[i] = bv
@@ -1606,13 +1751,15 @@ def flow_stream(ctx, checker, with_model, cases=None):
                             kw["a%d" % i], kw["b%d" % i] = 1, ([1] if bv else [])
                         elif kd == "isvar":
                             kw["k%d" % i] = object if bv else _Nope
+                        elif kd == "isx":
+                            kw["a%d" % i] = px if bv else S1
                     ns["BITS"][:] = full
                     try:
                         with contextlib.redirect_stderr(io.StringIO()):
                             r = f(px, pyy, **kw)
                     except AssertionError:
                         r = 0
-                        if pos != "assert":
+                        if pos not in ("assert", "assertmsg"):
                             raise
                     except Exception:  # noqa: BLE001   (the test raises on this object: outside the quantifier)
                         continue
@@ -1623,10 +1770,14 @@ def flow_stream(ctx, checker, with_model, cases=None):
                         spec_lines.append("checkbe %s %s 1 %s %s (%s)" % (case["sV"], case["scond"], V.obj_sexp(V.canon_obj(ox)),
                                                                          V.obj_sexp(V.canon_obj(oy)), " ".join("1" if b else "0" for b in full)))
                         spec_ref.append(r == 1)
-                    if pos == "assert" and r == 0:
+                    if pos in ("assert", "comp") and r == 0:
+                        continue
+                    if pos == "assertmsg" and r == 1:
                         continue
                     if pos == "while" and r == 0:
                         xi, yi = None, None
+                    elif pos == "assertmsg":
+                        xi, yi = 2, 3
                     else:
                         xi, yi = (2, 3) if r == 1 else (4, 5)
                     bad = None
@@ -1678,8 +1829,23 @@ M_ATOMS = [("known", ("int", 1)), ("known", ("int", 0)), ("known", ("int", 2)), 
            ("seq", G.TUPLE, [("typed", G.INT)]), ("generic", G.LIST, [("typed", G.BOOL)]), ("typed", G.COMPLEX)]
 
 
+def case_pat(p):
+    return p[1] if p[0] == "guard" else p
+
+
+def case_guard(p):
+    return p[2] if p[0] == "guard" else None
+
+
+def case_sexp(p):
+    g = case_guard(p)
+    return "(case %s %s)" % (pat_sexp(case_pat(p)), "-" if g is None else cond_sexp(g))
+
+
 def pat_sexp(p):
     k = p[0]
+    if k == "mcap":
+        return "mwild"   # a capture pattern matches like the wildcard (AlwaysMatching) and binds the name `cap`
     if k in ("msingle", "mvalue"):
         return "(%s %s)" % (k, V.obj_sexp(V.canon_obj(p[1])))
     if k == "mclass":
@@ -1691,6 +1857,11 @@ def pat_sexp(p):
 
 def pat_src(p):
     k = p[0]
+    if k == "guard":
+        a, b = pat_src(p[1]), cond_text(p[2])
+        return None if a is None or b is None else "%s if %s" % (a, b)
+    if k == "mcap":
+        return "cap"
     if k in ("msingle", "mvalue"):
         return lit_src(p[1])
     if k == "mclass":
@@ -1701,6 +1872,8 @@ def pat_src(p):
 
 
 def pat_value_literals(p):
+    if p[0] == "guard":
+        return pat_value_literals(p[1])
     if p[0] == "mvalue":
         return [p[1]]
     if p[0] == "mor":
@@ -1708,7 +1881,25 @@ def pat_value_literals(p):
     return []
 
 
+def guard_subject_literals(p):
+    """==/in literals a guard compares the subject (or its capture) with"""
+    g = case_guard(p)
+    if g is None:
+        return []
+    def caps(t):
+        if t[0] == "cap":
+            return cond_literals(t[1])
+        if t[0] == "not":
+            return caps(t[1])
+        if t[0] in ("and", "or"):
+            return [l for x in t[1] for l in caps(x)]
+        return []
+    return cond_literals(g) + caps(g)
+
+
 def pat_all_literals(p):
+    if p[0] == "guard":
+        return pat_all_literals(p[1]) + guard_subject_literals(p)
     if p[0] in ("mvalue", "msingle"):
         return [p[1]]
     if p[0] == "mor":
@@ -1727,6 +1918,29 @@ def gen_pat(rng, top=True):
     return ("mor", [gen_pat(rng, False), gen_pat(rng, False)])
 
 
+GUARD_X = ["isinst", "is", "isnot", "eq", "ne", "in", "truthy"]
+
+
+def gen_guard(rng, Vt, Vz, is_capture):
+    """a guard of the flow grammar: atoms on the subject, on the capture, on another variable z (spelled y), opaque calls"""
+    def atom():
+        r = rng.random()
+        if r < 0.42:
+            return ("opq", rng.randrange(2), "call")
+        if r < 0.65:
+            return gen_leaf(rng, Vt, GUARD_X)
+        if r < 0.8 and is_capture:
+            return ("cap", gen_leaf(rng, Vt, GUARD_X))
+        return ("other", gen_leaf(rng, Vz, GUARD_X))
+    def tree(d):
+        if d == 0 or rng.random() < 0.45:
+            a = atom()
+            return ("not", a) if rng.random() < 0.25 else a
+        t = (rng.choice(["and", "or"]), [tree(d - 1), tree(d - 1)])
+        return ("not", t) if rng.random() < 0.15 else t
+    return tree(rng.choice([0, 0, 1, 2]))
+
+
 def gen_match_case(rng):
     n = rng.choice([1, 2, 2, 3])
     members = []
@@ -1737,8 +1951,11 @@ def gen_match_case(rng):
     Vt = G.norm_term(("union", members))
     pats = [gen_pat(rng) for _ in range(rng.choice([1, 2, 2, 3]))]
     if rng.random() < 0.35:
-        pats.append(("mwild",))
-    return Vt, pats, rng.random() < 0.4   # third: every body returns (after the statement = fall-through path only)
+        pats.append(("mwild",) if rng.random() < 0.6 else ("mcap",))
+    Vz = rng.choice(Y_POOL)
+    # guards: a case may carry a condition of the flow grammar (the last case too)
+    pats = [("guard", p, gen_guard(rng, Vt, Vz, p[0] == "mcap")) if rng.random() < 0.45 else p for p in pats]
+    return Vt, pats, rng.random() < 0.4, Vz   # third: every body returns (after the statement = fall-through path only)
 
 
 def std_match_cases():
@@ -1761,6 +1978,20 @@ def std_match_cases():
                          ("mwild",)], False))
         out.append((Vt, [("mvalue", ("int", 1)), ("msingle", ("bool", 1))], True))
         out.append((Vt, [("mclass", G.BOOL), ("msingle", ("none",)), ("mvalue", ("int", 0))], False))
+    # guards without a constraint (the shapes of the seeded change C02-3) and their neighbours
+    OI = G.norm_term(("union", [("typed", G.INT), ("known", ("none",))]))
+    L1A = G.norm_term(("union", [("known", ("int", 1)), ("known", ("str", "a"))]))
+    CB = G.norm_term(("union", [("typed", V.CID[U.Color]), ("typed", G.BOOL)]))
+    opq, nopq = ("opq", 0, "call"), ("not", ("opq", 0, "call"))
+    for leave in (False, True):
+        for g in (opq, nopq, ("and", [opq, ("opq", 1, "call")]), ("or", [opq, ("other", ("is", ("none",)))]),
+                  ("other", ("is", ("none",))), ("isnot", ("none",)), ("and", [opq, ("truthy",)])):
+            out.append((OI, [("guard", ("msingle", ("none",)), g), ("mwild",)], leave))
+            out.append((OI, [("guard", ("msingle", ("none",)), g), ("guard", ("mwild",), opq)], leave))
+            out.append((L1A, [("guard", ("mvalue", ("int", 1)), g), ("mvalue", ("str", "a")), ("mwild",)], leave))
+            out.append((CB, [("guard", ("mvalue", ("inst", V.CID[U.Color], 0)), g), ("guard", ("msingle", ("bool", 1)), g), ("mcap",)], leave))
+            out.append((OI, [("guard", ("mcap",), ("and", [("cap", ("is", ("none",))), g])), ("mwild",)], leave))
+            out.append((OI, [("guard", ("mor", [("msingle", ("none",)), ("mvalue", ("int", 1))]), g)], leave))
     return out
 
 
@@ -1772,24 +2003,29 @@ def corpus_match_cases():
             if l.strip():
                 d = json.loads(l)
                 if "match" in d:
-                    out.append((totuple(d["V"]), [totuple(p) for p in d["match"]], bool(d.get("leave"))))
+                    out.append((totuple(d["V"]), [totuple(p) for p in d["match"]], bool(d.get("leave"))) +
+                               ((totuple(d["Vz"]),) if "Vz" in d else ()))
     return out
 
 
 def match_stream(ctx, checker, with_model, cases=None):
-    """`match` statements through the checker, *really executed* on every object of the declared type: the object must
-    belong to the type revealed in the body of the case that runs and to the type revealed after the statement."""
+    """`match` statements (patterns, guards of the flow grammar, captures) through the checker, *really executed* on every
+    object of the declared type and both values of every opaque bit: the object must belong to the type revealed in the body
+    of the case that runs and to the type revealed after the statement."""
     import contextlib, io
+    OI = ("union", [("typed", G.INT), ("known", ("none",))])
     if cases is None:
-        cases = corpus_match_cases() + std_match_cases() + [gen_match_case(ctx.rng) for _ in range(ctx.n(150, 4000))]
-    cases = [(Vt, pats, leave) for Vt, pats, leave in cases
+        cases = corpus_match_cases() + std_match_cases() + [gen_match_case(ctx.rng) for _ in range(ctx.n(170, 4000))]
+    cases = [(c[0], c[1], c[2], c[3] if len(c) > 3 else OI) for c in cases]
+    cases = [(Vt, pats, leave, Vz) for Vt, pats, leave, Vz in cases
              if spellable(Vt) and all(pat_src(p) is not None for p in pats)]
     B = 150
     for b0 in range(0, len(cases), B):
         part = cases[b0:b0 + B]
-        src = [PRELUDE.rstrip("\n"), "from typing_extensions import reveal_type"]
-        for j, (Vt, pats, leave) in enumerate(part):
-            src.append("def m%d(x: %s):" % (j, ty_src(Vt)))
+        src = [PRELUDE.rstrip("\n"), "from typing_extensions import reveal_type", "from types import NoneType",
+               "BITS = [False, False, True, False]", "def flag0() -> bool:\n    return BITS[0]", "def flag1() -> bool:\n    return BITS[1]"]
+        for j, (Vt, pats, leave, Vz) in enumerate(part):
+            src.append("def m%d(x: %s, y: %s):" % (j, ty_src(Vt), ty_src(Vz)))
             src.append("    reveal_type(x)")
             src.append("    r = -1")
             src.append("    match x:")
@@ -1817,11 +2053,12 @@ def match_stream(ctx, checker, with_model, cases=None):
                         vals.append((sub.lineno, getattr(sub.args[0], "inferred_value", None)))
                 revealed[int(node.name[1:])] = [v for _, v in sorted(vals, key=lambda q: q[0])]
         todo = []
-        for j, (Vt, pats, leave) in enumerate(part):
+        for j, (Vt, pats, leave, Vz) in enumerate(part):
             vals = revealed.get(j)
-            ctx.count(1, match=1, **{"match_%s" % p[0]: 1 for p in pats})
-            case = {"type": ty_src(Vt), "match": pats, "leave": leave, "patterns": [pat_src(p) for p in pats],
-                    "spats": "(%s)" % " ".join(pat_sexp(p) for p in pats)}
+            guarded = any(p[0] == "guard" for p in pats)
+            ctx.count(1, match=1, match_guarded=int(guarded), **{"match_%s" % case_pat(p)[0]: 1 for p in pats})
+            case = {"type": ty_src(Vt), "type_y": ty_src(Vz), "match": pats, "leave": leave, "Vz": Vz,
+                    "patterns": [pat_src(p) for p in pats], "spats": "(%s)" % " ".join(case_sexp(p) for p in pats)}
             if not vals or len(vals) != len(pats) + 2 or vals[0] is None:
                 ctx.tag("match_not_revealed")
                 continue
@@ -1837,24 +2074,31 @@ def match_stream(ctx, checker, with_model, cases=None):
             Vd = dec[0]
             case["V"] = Vd
             case["sV"] = V.ty_sexp(Vd)
-            todo.append((j, Vd, pats, leave, dec, case))
+            todo.append((j, Vd, pats, leave, dec, case, Vz))
         model = None
         if with_model and todo:
             lines = []
-            for j, Vd, pats, leave, dec, case in todo:
+            for j, Vd, pats, leave, dec, case, Vz in todo:
                 for i in range(len(pats)):
-                    lines.append("match %s %s %d" % (case["sV"], case["spats"], i))
-                lines.append(("match %s %s %d" % (case["sV"], case["spats"], len(pats))) if leave
-                             else "matchafter %s %s" % (case["sV"], case["spats"]))
+                    lines.append("gmatch %s %s %d" % (case["sV"], case["spats"], i))
+                lines.append(("gmatch %s %s %d" % (case["sV"], case["spats"], len(pats))) if leave
+                             else "gmatchafter %s %s" % (case["sV"], case["spats"]))
             out = lean.run_driver("C02", lines)
             model, pos = [], 0
-            for j, Vd, pats, leave, dec, case in todo:
+            for j, Vd, pats, leave, dec, case, Vz in todo:
                 model.append(out[pos:pos + len(pats) + 1])
                 pos += len(pats) + 1
         lost = []
-        for n, (j, Vd, pats, leave, dec, case) in enumerate(todo):
+        for n, (j, Vd, pats, leave, dec, case, Vz) in enumerate(todo):
             lits = [l for p in pats for l in pat_all_literals(p)]
-            comparable = no_cross_eq(lits, Vd) and not any(s[0] in ("typed", "generic") and s[1] in _protos() for s in subterms(Vd))
+            guards = [case_guard(p) for p in pats if case_guard(p) is not None]
+            # a guard atom on the subject itself is evaluated in the scope the pattern left (the subject may already be a single
+            # literal, an operand may be unreachable: see the flow stream), which the constraint model does not describe: the
+            # revealed types are compared with the model for guards over opaque operands, captures and other variables; every
+            # statement is judged by executing it
+            simple = all(not leaves(g) for g in guards)
+            comparable = simple and no_cross_eq(lits, Vd) and not any(unmodelled(Vd, g) for g in guards) and \
+                not any(s[0] in ("typed", "generic") and s[1] in _protos() for s in subterms(Vd))
             conforms = True
             if model is not None and comparable:
                 for i in range(len(pats) + 1):
@@ -1879,40 +2123,61 @@ def match_stream(ctx, checker, with_model, cases=None):
                             "revealed": [None if d is None else V.ty_sexp(d) for d in dec[1:]]})
             if G.has_any(Vd):
                 continue
-            vlits = [V.obj_to_py(l) for p in pats for l in pat_value_literals(p)]
+            # the ==/!= exemption of the quantifier applies to *value* patterns and to ==/in atoms of guards only; singleton
+            # patterns are identity tests
+            vlits = [V.obj_to_py(l) for p in pats for l in pat_value_literals(p) + guard_subject_literals(p)]
+            zlits = [V.obj_to_py(l) for g in guards for l in cond_literals(swap_vars(g))]
+            ids = sorted({i for g in guards for i in opaque_ids(g)})
+            ys = [(o, V.obj_to_py(o)) for o in Y_OBJS if G.member(V.obj_to_py(o), Vz)][:2] or [(("none",), None)]
+            if not any(has_other(g) for g in guards):
+                ys = ys[:1]
             f = ns["m%d" % j]
+            found = False
             for o, py in objects_for(ctx.rng, Vd, ("truthy",), 2):
+                if found:
+                    break
                 if not G.member(py, Vd) or property_silent(Vd, o):
                     continue
-                # the ==/!= exemption of the quantifier applies to *value* patterns only; singleton patterns are identity tests
-                if not all(_eq_safe(py, l) for l in vlits):
+                if not all(_eq_safe(py, l) for l in vlits) or not no_cross_eq([o], Vd):
                     continue
-                if not no_cross_eq([o], Vd):
-                    continue
-                with contextlib.redirect_stderr(io.StringIO()):
-                    ran = f(py)
-                body = dec[1 + ran] if ran >= 0 else None
-                after = dec[1 + len(pats)]
-                bad = None
-                if body is not None and not G.member(py, body):
-                    bad = "the body of case %d (`case %s`) runs" % (ran, pat_src(pats[ran]))
-                elif after is not None and (ran < 0 or not leave) and not G.member(py, after):
-                    bad = "execution continues after the match statement (%s)" % ("no case matched" if ran < 0 else "case %d ran" % ran)
-                if bad:
-                    lost.append((case, pats, o, py, ran, bad, conforms))
-                    break
+                for (oy, pyy), bits in itertools.product(ys, itertools.product([False, True], repeat=len(ids))):
+                    if not all(_eq_safe(pyy, l) for l in zlits):
+                        continue
+                    full = [False, False, True, False]
+                    for i, bv in zip(ids, bits):
+                        full[i] = bv
+                    ns["BITS"][:] = full
+                    try:
+                        with contextlib.redirect_stderr(io.StringIO()):
+                            ran = f(py, pyy)
+                    except Exception:  # noqa: BLE001   (a guard raises on this object: outside the quantifier)
+                        continue
+                    body = dec[1 + ran] if ran >= 0 else None
+                    after = dec[1 + len(pats)]
+                    bad = None
+                    if body is not None and not G.member(py, body):
+                        bad = "the body of case %d (`case %s`) runs" % (ran, pat_src(pats[ran]))
+                    elif after is not None and (ran < 0 or not leave) and not G.member(py, after):
+                        bad = "execution continues after the match statement (%s)" % ("no case matched" if ran < 0 else "case %d ran" % ran)
+                    if bad:
+                        lost.append((case, pats, o, py, ran, bad, conforms, oy, full))
+                        found = True
+                        break
         dl = []
         if with_model and lost:
-            dl = lean.run_driver("C02", ["matchcheck %s %s %s" % (c["sV"], c["spats"], V.obj_sexp(V.canon_obj(o)))
-                                         for c, pats, o, py, ran, bad, conf in lost])
-        for n, (case, pats, o, py, ran, bad, conf) in enumerate(lost):
+            dl = lean.run_driver("C02", ["gmatchcheck %s %s %s %s (%s)" % (c["sV"], c["spats"], V.obj_sexp(V.canon_obj(o)),
+                                                                          V.obj_sexp(V.canon_obj(oy)), " ".join("1" if b else "0" for b in full))
+                                         for c, pats, o, py, ran, bad, conf, oy, full in lost])
+        for n, (case, pats, o, py, ran, bad, conf, oy, full) in enumerate(lost):
             l = dl[n] if n < len(dl) else ""
             cls = live_cls(l.split(" D=")[1].split(",")) if " D=" in l else None
             model_lost = (" D=" in l) and (l[2] == "0" or l[3] == "0")
-            prog = "def f(x: %s):\n    match x:\n%s" % (case["type"], "".join("        case %s: ...\n" % q for q in case["patterns"]))
-            ctx.candidate(dict(case, object=repr(py), obj=o, ran=ran, driver=l, program=prog),
-                          "match statement really executed with %r: %s, but the object does not belong to the type pyanalyze "
-                          "infers for the subject there" % (py, bad), cls=cls, conforms=conf and model_lost, stream="match-keeps")
+            prog = "def f(x: %s, y: %s):\n    match x:\n%s" % (case["type"], case["type_y"],
+                                                               "".join("        case %s: ...\n" % q for q in case["patterns"]))
+            ctx.candidate(dict(case, object=repr(py), obj=o, other_obj=oy, bits=full, ran=ran, driver=l, program=prog),
+                          "match statement really executed with x = %r, opaque operands = %s: %s, but the object does not belong to "
+                          "the type pyanalyze infers for the subject there" % (py, full, bad), cls=cls,
+                          conforms=conf and model_lost, stream="match-keeps")
 
 
 _PROTOS = []
@@ -1954,7 +2219,8 @@ def replay(ctx, data):
         print(json.dumps({"candidates": ctx.candidates[:3], "broken": ctx.broken[:3]}, indent=1, default=str))
         return 1 if (ctx.candidates or ctx.broken) else 0
     if "match" in c:
-        match_stream(ctx, pya.make_checker(), True, cases=[(totuple(c["V"]), [totuple(p) for p in c["match"]], bool(c.get("leave")))])
+        match_stream(ctx, pya.make_checker(), True, cases=[(totuple(c["V"]), [totuple(p) for p in c["match"]], bool(c.get("leave"))) +
+                                                           ((totuple(c["Vz"]),) if "Vz" in c else ())])
         print(json.dumps({"candidates": ctx.candidates[:3], "broken": ctx.broken[:3]}, indent=1, default=str))
         return 1 if (ctx.candidates or ctx.broken) else 0
     evaluate(ctx, [(totuple(c["V"]), totuple(c["cond"]))], replaying=True)
